@@ -121,6 +121,8 @@ class Interp:
             extra = getattr(base, "_minipy_attrs", None)
             if isinstance(extra, dict) and e.attr in extra:
                 return extra[e.attr]
+            if base is None:
+                raise Raised("AttributeError", e)
             raise Unsupported(f"attribute {norm(e)[:40]} of a {type(base).__name__}")
         if isinstance(e, ast.Tuple):
             return tuple(self.ev(x, env) for x in e.elts)
@@ -306,6 +308,8 @@ class Interp:
                         bound = dict(zip(params, vals))
                         bound.update(kw)
                         return self.call_function(fn, bound)
+            if base is None:
+                raise Raised("AttributeError", e)
             raise Unsupported(f"method {m} of a {type(base).__name__}")
         raise Unsupported(f"call {fn[:40]}")
 
